@@ -133,6 +133,12 @@ Theorem src_cbits_copy : f_sim_cbits_copy src_flags = true.
 Proof. exact src_cbits_copy. Qed.
 Print Assumptions src_cbits_copy.
 
+(* generated obligation: GateCompiler.generate_pulse_shape and the module-level helpers it reaches carry no cache,
+   global, mutable default or write into a module-level container (state outside the objects is not in the model) *)
+Theorem src_shape_path_stateless_ok : src_shape_path_stateless = true.
+Proof. exact src_shape_path_stateless_ok. Qed.
+Print Assumptions src_shape_path_stateless_ok.
+
 Theorem history_pure_src :
   forall hist w w' rs, hist_wf src_flags w hist -> run_hist src_flags w hist = Some (w', rs) ->
   forall l, l < length (hp w) -> nth_error (hp w') l = nth_error (hp w) l.
